@@ -22,7 +22,7 @@ EXPLANATION = (
     "(reported, not alarmed, unless a reviewed key gains sites).  R-C20-6 a buffer sized only under a condition is indexed only "
     "under that condition.  R-C20-7 the unwrapped edge lookups (eigenvector, Louvain, clustering) rely on `the pair came from the "
     "adjacency, so the edge is stored`: the keyed accesses to `edges`/`edges_map` in add_edge and in the crate functions whose "
-    "result is unwrapped obey the stores' canonical-key discipline (same rule as R-C02-3).  R-C20-8 re-checks the premise of the reviewed Louvain unwraps: every graph to_single_edges returns has multi_edges = false.  NOT decided: termination of loops (only absence of recursion is "
+    "result is unwrapped obey the stores' canonical-key discipline (same rule as R-C02-3).  R-C20-8 re-checks the premise of the reviewed Louvain unwraps: every graph to_single_edges returns has multi_edges = false.  R-C20-13: reductions over lists taken from the graph are unwrapped only behind an emptiness test of that list.  NOT decided: termination of loops (only absence of recursion is "
     "reported), panics inside dependencies, allocation failure."
 )
 TRUSTED = ["rustc MIR construction incl. overflow/div assert terminators (extracted with -C overflow-checks=on)", "std semantics of Option/Result/HashMap/Vec"]
@@ -256,6 +256,7 @@ def run(ctx):
     rule7(ctx, prog, flows, all_sites)
     rule8(ctx, prog, flows)
     rule12(ctx, prog, flows)
+    rule13(ctx, prog, flows)
     from engines import check_unwrapped_callee_kinds
 
     from props.c15 import subgraph_edge_source
@@ -1139,3 +1140,60 @@ def rule12(ctx, prog, flows):
             ctx.require(bad is None, "R-C20-12", "edge-sized|%s|%s" % (panic.root_fn_short(b), b.local_name(t.dest.local) or "_"), "the edge-sized vector `%s` in %s is not indexed by node positions" % (b.local_name(t.dest.local) or "_", b.short.split("::")[-1]),
                         "%s allocates `%s` with one slot per EDGE (%s) and indexes it by a node position: on a graph with fewer edges than nodes (a tree, a path, isolated nodes, a single node) the index is out of bounds and the call panics" % (b.short, b.local_name(t.dest.local) or "_", fmt_desc(d)[:80]), loc_str((bad or t).span))
     ctx.counters["edge_sized_vectors"] = n
+
+
+EMPTY_SENSITIVE = ("reduce", "max", "min", "max_by", "min_by", "max_by_key", "min_by_key", "last", "first", "next", "nth")
+LIST_ACCESSORS = ("get_all_edges", "get_all_nodes", "get_all_node_names", "get_edges_for_node", "get_in_edges_for_node", "get_out_edges_for_node")
+
+
+def rule13(ctx, prog, flows):
+    """A graph with nodes and no edges (or no nodes at all) is a valid graph.  `list.iter()..reduce(f) / max() / min()
+    / last() / first()` is None exactly when the list is empty, so unwrapping it needs an emptiness test OF THAT LIST in
+    front -- a test of another quantity (the node count for a reduction over the edges) leaves the edgeless graph
+    unguarded."""
+    from props.c01 import controlling_atoms
+
+    ctx.rule("R-C20-13", "a reduction (reduce / max / min / first / last) over a list taken from the graph is unwrapped only behind an emptiness test of that same list")
+    n = 0
+    for p in sorted(prog.bodies):
+        b = prog.bodies[p]
+        root = b
+        while root.kind == "closure":
+            root = prog.bodies[root.item["parent"]]
+        if not (root.short.startswith("algorithms::") or root.short.startswith("graph::")):
+            continue
+        fl = None
+        for st in enumerate_sites(b):
+            if st.kind != "unwrap" or st.operand is None:
+                continue
+            fl = fl or flows.of(b)
+            oc = origin_call(fl, st.operand)
+            if oc is None or not oc.callee or oc.callee.short.split("::")[-1] not in EMPTY_SENSITIVE or not oc.args:
+                continue
+            # the list the reduction walks: producer calls of its receiver
+            sl = fl.slice_local(fl._op_reads(oc.args[0]), data_only=True)
+            acc = {b.blocks[nd[1]].term for nd in sl if nd[0] == "CALL" and b.blocks[nd[1]].term.callee and b.blocks[nd[1]].term.callee.short.split("::")[-1] in LIST_ACCESSORS}
+            if not acc:
+                continue
+            n += 1
+            lists = set()
+            for t_ in acc:
+                lists |= fl.copies_of(t_.dest.local) | {t_.dest.local}
+            guarded = None
+            for (te, v, a) in controlling_atoms(fl, st.node.bb):
+                if not (isinstance(te, tuple) and te[0] in ("call", "binop")):
+                    continue
+                if isinstance(a, tuple):
+                    continue
+                rd = fl.atom_reads(a)
+                gsl = fl.slice_local(rd, data_only=True)
+                names = {b.blocks[nd[1]].term.callee.short.split("::")[-1] for nd in gsl if nd[0] == "CALL" and b.blocks[nd[1]].term.callee}
+                on_list = any(nd[0] == "L" and nd[1] in lists for nd in gsl) or any(("CALL", t_.bb) in gsl for t_ in acc)
+                if on_list and names & {"is_empty", "len"}:
+                    guarded = fmt_desc(te)[:80]
+            which = "/".join(sorted(t_.callee.short.split("::")[-1] for t_ in acc))
+            ctx.require(guarded is not None, "R-C20-13", "reduction|%s|%s" % (b.short, oc.callee.short.split("::")[-1]), "%s(..).unwrap() over %s in %s is behind %s" % (oc.callee.short.split("::")[-1], which, b.short.split("::")[-1], guarded),
+                        "%s unwraps %s(..) over the list returned by %s without an emptiness test of that list in front: on a graph for which the list is empty (nodes but no edges, or no nodes) the call panics although the graph is valid" % (b.short, oc.callee.short.split("::")[-1], which), st.site())
+    # no floor: a reduction may legitimately be rewritten as a fold with an initial value, which cannot fail; the rule's
+    # positive example is the seeded fixture R9_C20 (it must fire on every regression run)
+    ctx.counters["guarded_reductions"] = n
